@@ -1476,6 +1476,37 @@ def rule_r7(chk, prog):
                   nontrivial=True)
 
 
+def rule_r7_contains(chk, prog):
+    """Second half of C12.R7: membership."""
+    m = prog.mod('nodes')
+    cd = m.cls('Node')
+    meths = {st.name: st for st in cd.body
+             if isinstance(st, ast.FunctionDef)}
+    co = meths.get('__contains__')
+    if co is None:
+        chk.instance('C12.R7', 'nodes.Node', 'no __contains__: "x in node" '
+                     'compares x with the elements of data in order', True,
+                     'default sequence membership', nontrivial=True,
+                     loc=m.loc(cd))
+        return
+    sp = co.args.args[0].arg
+    ip = co.args.args[1].arg if len(co.args.args) > 1 else None
+    rets = [r for r in walk_no_nested(co) if isinstance(r, ast.Return)]
+    good = (f'{ip} in {sp}.data', f'{sp}.data.__contains__({ip})',
+            f'any(({ip} == c for c in {sp}.data))',
+            f'any((c == {ip} for c in {sp}.data))')
+    ok = bool(rets) and all(r.value is not None and unparse(expand_locals(
+        co, r.value)) in good for r in rets)
+    chk.check('C12.R7', 'nodes.Node.__contains__', 'membership among the '
+              'children', ok,
+              'Node.__contains__ is not membership among the elements of '
+              'data (e.g. it searches the whole subtree): every "x in node" '
+              'of the mutators changes its meaning - filters that looked '
+              'for a direct child now accept nodes whose proposal is the '
+              'node itself, a no-op that is accepted again and again',
+              loc=m.loc(co), nontrivial=True)
+
+
 def run(tier):
     prog = Program()
     chk = Check(
@@ -1510,6 +1541,7 @@ def run(tier):
     chk.guard(rule_r5, chk, prog)
     chk.guard(rule_r5_depth, chk, prog)
     chk.guard(rule_r7, chk, prog)
+    chk.guard(rule_r7_contains, chk, prog)
     # "copying yields an equal tree with fresh identities": reduplicate is
     # the copy that re-establishes them (shared with C13.R2-R4)
     from . import c13
